@@ -80,10 +80,10 @@ type SimNode struct {
 	ReusedIndexStep int
 	LostData        bool // this incarnation started without the data of the previous one
 	traceSeq        int
-	AnchorAtReset    map[int]int // app epoch -> anchor block index the node reset to
-	AnchorRRAtReset  map[int]int
-	Incarnation      int
-	JoinedAtStep     int
+	AnchorAtReset   map[int]int // app epoch -> anchor block index the node reset to
+	AnchorRRAtReset map[int]int
+	Incarnation     int
+	JoinedAtStep    int
 
 	// Responder, if set, answers RPCs in place of a real node (Byzantine peer).
 	Responder func(from *SimNode, cmd interface{}) (interface{}, error)
